@@ -2,6 +2,7 @@ package main
 
 import (
 	"fmt"
+	"math"
 	"strings"
 
 	"github.com/sahandsafizadeh/qeep/tensor"
@@ -485,10 +486,25 @@ func c08OpTable(c *core.Ctx) {
 		for i := 0; i < n; i++ {
 			total *= len(states)
 		}
-		for code := 0; code < total; code++ {
-			code := code
-			c.Case(fmt.Sprintf("optable/%s/%d", oc.ID(), code), true, func() core.Verdict {
+		for code := 0; code < total*5; code++ {
+			// dv > 0: special operand DATA (round 16): operand 0 above / below everything else, operand 0 all zeros,
+			// the last operand all zeros - tracking must not depend on the values
+			code, dv := code%total, code/total
+			if dv > 0 && !c08DataVariantOps[oc.Op.K] {
+				continue
+			}
+			c.Case(fmt.Sprintf("optable/%s/%d%s", oc.ID(), code, []string{"", "/dominates0", "/dominated0", "/zeros0", "/zerosLast"}[dv]), true, func() core.Verdict {
 				in := genInputs(oc.Op, oc.In, 61)
+				switch dv {
+				case 1:
+					in[0] = ref.Map(in[0], func(v float64) float64 { return math.Abs(v) + 10 })
+				case 2:
+					in[0] = ref.Map(in[0], func(v float64) float64 { return -math.Abs(v) - 10 })
+				case 3:
+					in[0] = ref.FullOf(in[0].Shape, 0)
+				case 4:
+					in[len(in)-1] = ref.FullOf(in[len(in)-1].Shape, 0)
+				}
 				rin := make([]tensor.Tensor, n)
 				anyTracked, anySpent := false, false
 				x := code
@@ -702,3 +718,7 @@ func checkC08(c *core.Ctx) {
 	st := core.BFS[c08Ev](c, sys, ib.depth, fmt.Sprintf("id%d/", ib.pool))
 	c.Note("identity-like unary ops, pool<=%d depth<=%d: %d states, %d transitions, new states per depth %v", ib.pool, ib.depth, st.States, st.Transitions, st.PerDepth)
 }
+
+// c08DataVariantOps: operations defined (and with a finite result) for every finite operand value.
+var c08DataVariantOps = map[string]bool{"Add": true, "Sub": true, "Mul": true, "ElMax": true, "ElMin": true, "Dot": true, "MatMul": true,
+	"Scale": true, "Exp": true, "Tanh": true, "Sin": true, "SumAlong": true, "MeanAlong": true, "MaxAlong": true, "Reshape": true, "Transpose": true, "Slice": true, "Patch": true, "Concat": true}
